@@ -417,3 +417,95 @@ Proof.
   rewrite list_eqbZ_refl. exists {| ba_shape := pre ++ [sumZ chy; sumZ chx] ++ post; ba_axis := len pre; ba_tiles := t |}, t.
   cbn [ba_shape ba_axis ba_tiles]. split; [reflexivity|]. split; [reflexivity|]. split; [exact Wt|]. auto.
 Qed.
+
+(** _norm_roi / the plan of extract for a Y/X window given as a 2-tuple, and for roi=None *)
+Lemma zip_norm_app a b : forall sa sb, length a = length sa ->
+  zip_norm (a ++ b) (sa ++ sb) = zip_norm a sa ++ zip_norm b sb.
+Proof.
+  induction a as [|x a IH]; intros [|n sa] sb H; cbn in H; try discriminate; [reflexivity|].
+  cbn [app zip_norm]. f_equal. apply IH. lia.
+Qed.
+
+Lemma zip_norm_full l : nonneg l -> zip_norm (map full_sl l) l = map (fun n => (0, n)) l.
+Proof.
+  induction 1 as [|n l Hn Hl IH]; [reflexivity|]. cbn [map zip_norm]. rewrite IH. f_equal.
+  change (full_sl n) with (mk_sl (0, n)). apply norm_ss_mk; lia.
+Qed.
+
+Lemma squeeze_full l : forall k ax rest,
+  squeeze_axes k ax (map full_sl l ++ rest) = squeeze_axes (k + len l) ax rest.
+Proof.
+  induction l as [|n l IH]; intros k ax rest; cbn [map app].
+  - unfold len; cbn. rewrite Z.add_0_r. reflexivity.
+  - cbn [squeeze_axes full_sl]. rewrite IH. f_equal. unfold len; cbn [length]. lia.
+Qed.
+
+Lemma squeeze_yx ax ry rx post :
+  squeeze_axes ax ax ([ry; rx] ++ map full_sl post) = [].
+Proof.
+  cbn [app squeeze_axes]. rewrite Z.eqb_refl. cbn [orb].
+  replace (ax + 1 =? ax) with false by (symmetry; apply Z.eqb_neq; lia). rewrite Z.eqb_refl. cbn [orb].
+  pose proof (squeeze_full post (ax + 1 + 1) ax []) as S. rewrite app_nil_r in S. rewrite S.
+  destruct ry; destruct rx; reflexivity.
+Qed.
+
+Lemma len_map {A B} (f : A -> B) l : len (map f l) = len l.
+Proof. unfold len; rewrite map_length; reflexivity. Qed.
+
+Lemma ba_norm_roi_yx a pre post ny nx ry rx :
+  ba_shape a = pre ++ [ny; nx] ++ post -> ba_axis a = len pre -> nonneg pre -> nonneg post ->
+  ba_norm_roi a (Some [ry; rx]) =
+    Ok (map (fun n => (0, n)) pre ++ [norm_ss ry ny; norm_ss rx nx] ++ map (fun n => (0, n)) post, []).
+Proof.
+  intros Hs Ha Npre Npost. unfold ba_norm_roi. rewrite Hs, Ha.
+  change (len [ry; rx] =? 2) with true. cbv iota.
+  set (mid := [ny; nx]). assert (Lm : len mid = 2) by reflexivity.
+  rewrite py_slice_pre. replace (len pre + 2) with (len pre + len mid) by (rewrite Lm; reflexivity).
+  rewrite py_slice_post. cbn [bind].
+  rewrite zip_norm_app by (rewrite map_length; reflexivity).
+  rewrite zip_norm_full by assumption.
+  change ([ry; rx] ++ map full_sl post) with ([ry] ++ [rx] ++ map full_sl post).
+  unfold mid. change ([ny; nx] ++ post) with ([ny] ++ [nx] ++ post).
+  rewrite (zip_norm_app [ry] _ [ny]) by reflexivity.
+  rewrite (zip_norm_app [rx] _ [nx]) by reflexivity.
+  rewrite zip_norm_full by assumption.
+  rewrite squeeze_full. rewrite Z.add_0_l.
+  change ([ry] ++ [rx] ++ map full_sl post) with ([ry; rx] ++ map full_sl post).
+  rewrite squeeze_yx. reflexivity.
+Qed.
+
+Lemma existsb_neg_full l : nonneg l -> existsb (fun d => d <? 0) (map (fun s : Z * Z => snd s - fst s) (map (fun n => (0, n)) l)) = false.
+Proof.
+  induction 1 as [|n l Hn Hl IH]; [reflexivity|]. cbn [map existsb fst snd]. rewrite IH.
+  destruct (Z.ltb_spec (n - 0) 0); [lia | reflexivity].
+Qed.
+
+Lemma drop_axes_nil l : forall k, drop_axes k [] l = l.
+Proof. induction l; intros; cbn; [reflexivity | f_equal; auto]. Qed.
+
+(** extract(roi=(ry, rx)) works on the window (normalise ry, normalise rx) of the Y/X plane *)
+Lemma ba_plan_yx a pre post ny nx ry rx :
+  ba_shape a = pre ++ [ny; nx] ++ post -> ba_axis a = len pre -> nonneg pre -> nonneg post ->
+  let wy := norm_ss ry ny in
+  let wx := norm_ss rx nx in
+  fst wy <= snd wy -> fst wx <= snd wx ->
+  exists nroi full, ba_plan a (Some [ry; rx]) = Ok (nroi, (wy, wx), full, full) /\
+                    full = pre ++ [snd wy - fst wy; snd wx - fst wx] ++ post.
+Proof.
+  intros Hs Ha Npre Npost wy wx Hy Hx. unfold ba_plan.
+  rewrite (ba_norm_roi_yx a pre post ny nx ry rx Hs Ha Npre Npost). cbn [bind].
+  rewrite Hs, Ha. fold wy wx.
+  rewrite !len_app, !len_map. change (len [wy; wx]) with 2. change (len [ny; nx]) with 2.
+  rewrite Z.eqb_refl. cbn [negb].
+  set (mid := [wy; wx]). assert (Lm : len mid = 2) by reflexivity.
+  pose proof (py_slice_mid (map (fun n => (0, n)) pre) mid (map (fun n => (0, n)) post)) as PM.
+  rewrite len_map, Lm in PM. rewrite PM. unfold mid.
+  rewrite !map_app, existsb_app, existsb_app.
+  rewrite !existsb_neg_full by assumption. cbn [map existsb fst snd orb].
+  destruct (Z.ltb_spec (snd wy - fst wy) 0); [lia|]. destruct (Z.ltb_spec (snd wx - fst wx) 0); [lia|].
+  cbn [orb]. rewrite drop_axes_nil. eexists; eexists; split; [reflexivity|].
+  rewrite !map_map. cbn [fst snd].
+  assert (M : forall l : list Z, map (fun x => x - 0) l = l)
+    by (induction l; cbn; [reflexivity | f_equal; [lia | assumption]]).
+  rewrite !M. reflexivity.
+Qed.
